@@ -25,7 +25,7 @@ RULE = ('two case families. history: a scratch package (4 modules: annotated fun
         'claw_is_pep526=False, FIRST decorator placement (both / types only / functions only), violation_type=UserWarning, violation_type=ValueError} and optional source edits '
         'between runs (comment appended / annotation changed, mtime advanced by 2 s). Oracle: fingerprint (import outcomes and probe-call '
         'verdicts) of the last run == fingerprint of the same setting after deleting every __pycache__; file invariant after every run. '
-        'threads: hook setting x schedule (list of run lengths) for two threads importing a hooked and an unhooked module concurrently in '
+        'threads: hook setting x 2-3 threads each importing 1-2 modules (hooked and unhooked mixed) x schedule (list of run lengths, the first a fraction of the first thread\'s own length) in '
         'one interpreter; oracle: file invariant (the unhooked module must not be cached under the beartype marker nor vice versa), no '
         'exception, no deadlock. non-trivial = consecutive runs differ in hook setting or a source edit happened (history), or a context '
         'switch occurred while both imports were in flight (threads); distinct by canonical JSON')
@@ -88,7 +88,8 @@ def write_tree(root, ann='int'):
     files = {
         'c16pkg/__init__.py': '', 'c16pkg/mod_a.py': MOD_A.format(ann=ann), 'c16pkg/mod_b.py': MOD_B,
         'c16pkg/sub/__init__.py': '', 'c16pkg/sub/mod_c.py': MOD_C,
-        'c16other/__init__.py': '', 'c16other/mod_u.py': MOD_U, 'c16warm.py': 'X = 1\n',
+        'c16other/__init__.py': '', 'c16other/mod_u.py': MOD_U, 'c16other/mod_v.py': MOD_U.replace('def u(', 'def v('),
+        'c16warm.py': 'X = 1\n',
     }
     for rel, text in files.items():
         with open(os.path.join(root, rel), 'w') as fh:
@@ -171,14 +172,34 @@ def _history(draw, tier):
     return {'family': 'history', 'runs': runs}
 
 
+HOOKED_MODS = ['c16pkg.mod_a', 'c16pkg.sub.mod_c']    # (mod_b fails its own import under pep526 hooks by design)
+UNHOOKED_MODS = ['c16other.mod_u', 'c16other.mod_v']
+
+
 @st.composite
 def _threads(draw, tier):
-    # the first run length is a fraction of the number of yield points the first thread needs on its own (calibrated once per
-    # worker and hook setting), so that the preemption lands inside its import
+    # 2-3 threads, each importing 1-2 modules (hooked and unhooked ones mixed, e.g. a thread that finishes a hooked import and goes
+    # on to an unhooked one while another thread is still inside a hooked compilation).  The first run length is a fraction of the
+    # number of yield points the first thread needs on its own (calibrated once per worker), so that the preemption lands inside
+    # its imports.
+    n = draw(st.sampled_from([2, 2, 3]))
+    pool = HOOKED_MODS + UNHOOKED_MODS
+    # every module is imported by one thread only (two threads importing the same module queue on its per-module import lock, a
+    # real lock the scheduler does not own)
+    order = draw(st.permutations(pool))
+    sizes = [draw(st.integers(1, 2)) for _ in range(n)]
+    programs, i = [], 0
+    for sz in sizes:
+        programs.append(list(order[i:i + sz]) or [order[-1]])
+        i += sz
+    programs = [p for p in programs if p][:n]
+    if not any(m in HOOKED_MODS for p in programs for m in p):
+        programs[0][0] = 'c16pkg.mod_a'
+    if not any(m in UNHOOKED_MODS for p in programs for m in p):
+        programs[-1].append(draw(st.sampled_from(UNHOOKED_MODS)))
     return {'family': 'threads', 'hook': draw(st.sampled_from(['default', 'pep526off', 'viol_warn'])),
-            'hooked_first': draw(st.sampled_from([True, True, True, False])),
-            'first_fraction': draw(st.integers(0, 1000)),
-            'schedule': draw(st.lists(st.one_of(st.integers(0, 60), st.integers(0, 600), st.integers(0, 6000)), min_size=0, max_size=3))}
+            'programs': programs, 'first_fraction': draw(st.integers(0, 1000)),
+            'schedule': draw(st.lists(st.one_of(st.integers(0, 60), st.integers(0, 600), st.integers(0, 6000)), min_size=0, max_size=4))}
 
 
 def strategy(tier):
@@ -208,21 +229,21 @@ def run_case(case):
     try:
         write_tree(root)
         if case['family'] == 'threads':
-            key = (case['hook'], case['hooked_first'])
+            programs = case.get('programs') or ([['c16pkg.mod_a'], ['c16other.mod_u']] if case.get('hooked_first', True)
+                                                 else [['c16other.mod_u'], ['c16pkg.mod_a']])
+            key = (case['hook'], json.dumps(programs))
             if key not in _CALIBRATION:
                 cal_root = tempfile.mkdtemp(prefix='c16cal_', dir=os.environ.get('TMPDIR') or '/tmp')
                 try:
                     write_tree(cal_root)
-                    cal, _p = child({'root': cal_root, 'hook': case['hook'], 'mode': 'threads', 'schedule': [10 ** 9],
-                                     'hooked_first': case['hooked_first']})
+                    cal, _p = child({'root': cal_root, 'hook': case['hook'], 'mode': 'threads', 'schedule': [10 ** 9], 'programs': programs})
                     _CALIBRATION[key] = cal['per_thread'][0] if cal and not cal['timeout'] else 2000
                 finally:
                     shutil.rmtree(cal_root, ignore_errors=True)
             n0 = _CALIBRATION[key]
             schedule = [case.get('first_fraction', 500) * n0 // 1000] + list(case['schedule'])
             case = dict(case, schedule=schedule)
-            out, p = child({'root': root, 'hook': case['hook'], 'mode': 'threads', 'schedule': schedule,
-                            'hooked_first': case['hooked_first']})
+            out, p = child({'root': root, 'hook': case['hook'], 'mode': 'threads', 'schedule': schedule, 'programs': programs})
             evals = 1
             if out is None:
                 return {'fails': [], 'nontrivial': False, 'classes': ['inconclusive:child-failed'], 'evals': 1,
